@@ -185,7 +185,10 @@ class PianorollSequence(events_lib.EventSequence):
         (quantized_sequence.total_quantized_steps - start_step,
          max_pitch - min_pitch + 1), bool)
 
-    for note in quantized_sequence.notes:
+    # Paint notes in start order so that the result does not depend on the order
+    # in which the notes are stored.
+    for note in sorted(quantized_sequence.notes,
+                       key=lambda note: note.quantized_start_step):
       if note.quantized_start_step < start_step:
         continue
       if not min_pitch <= note.pitch <= max_pitch:
@@ -194,7 +197,7 @@ class PianorollSequence(events_lib.EventSequence):
       note_start_offset = note.quantized_start_step - start_step
       note_end_offset = note.quantized_end_step - start_step
 
-      if split_repeats:
+      if split_repeats and note_start_offset > 0:
         piano_roll[note_start_offset - 1, note_pitch_offset] = 0
       piano_roll[note_start_offset:note_end_offset, note_pitch_offset] = 1
 
